@@ -108,6 +108,18 @@ fn job(ctx: &Ctx, s: &dyn SuiteOps, kind: Kind, thorough: bool) -> JobOut {
                 case: Case::Decode { suite: s.name().into(), kind, codec: Codec::Native, bytes: Hex(v.clone()), expect: "canonical".into(), note: "valid".into() },
             });
         }
+        out.evals += 1;
+        if let Some(d) = serde_roundtrip(s, kind, v) {
+            let sig = format!("roundtrip-serde:{:?}", kind);
+            if !out.found.iter().any(|f| f.signature == sig) {
+                out.found.push(Found {
+                    clause: "roundtrip".into(),
+                    detail: format!("{}: {}", s.name(), d),
+                    signature: sig,
+                    case: Case::Decode { suite: s.name().into(), kind, codec: Codec::Native, bytes: Hex(v.clone()), expect: "canonical".into(), note: "valid-serde".into() },
+                });
+            }
+        }
         // 2. every length 0..len+64
         for len in 0..v.len() {
             test(&mut out, "truncated".into(), format!("len:{:?}:truncated", kind), &v[..len], true);
@@ -292,8 +304,37 @@ pub fn replay_decode_serde(suite: &str, kind: Kind, codec: Codec, bytes: &[u8]) 
     }
 }
 
+/// a valid value stored through bincode / JSON and loaded again is the same value
+pub fn serde_roundtrip(s: &dyn SuiteOps, kind: Kind, native: &[u8]) -> Option<String> {
+    let item = s.decode(kind, Codec::Native, native).ok()?;
+    for c in [Codec::Bincode, Codec::Json] {
+        let enc = match s.encode(&item, c) {
+            Ok(e) => e,
+            Err(f) if f.is_panic() => continue, // C12's business
+            Err(f) => return Some(format!("a valid {kind:?} cannot be stored through {c:?}: {}", f.short())),
+        };
+        let back = match s.decode(kind, c, &enc) {
+            Ok(b) => b,
+            Err(f) if f.is_panic() => continue,
+            Err(f) => return Some(format!("a valid {kind:?} stored through {c:?} does not load again: {}", f.short())),
+        };
+        match s.encode(&back, Codec::Native) {
+            Ok(n) if n == native => {}
+            Ok(n) => {
+                let off = n.iter().zip(native.iter()).position(|(x, y)| x != y).unwrap_or(n.len().min(native.len()));
+                return Some(format!("a valid {kind:?} stored through {c:?} and loaded again is another value: its encoding differs first at offset {off} ({} vs {} bytes)", n.len(), native.len()));
+            }
+            Err(_) => {}
+        }
+    }
+    None
+}
+
 pub fn replay_decode(suite: &str, kind: Kind, bytes: &[u8], note: &str) -> Option<String> {
     let s = crate::suite::suite_by_name(suite)?;
+    if note == "valid-serde" {
+        return serde_roundtrip(s, kind, bytes);
+    }
     let total = crate::layout::total_len(kind, &s.lens());
     let (acc, bad) = judge_bytes(s, kind, bytes);
     if note == "valid" && !acc {
